@@ -44,7 +44,8 @@ CHECKS = {
         text='All ordered pairs of a point lattice (poles, equator +-1e-9, antimeridian +-1e-6, 1 mm / 1 m neighbours, fill; '
              'separation <= 178 deg) x 6-8 ellipsoids through vincinv; result fed to the exact direct geodesic (arrival <= 2 mm), '
              'reverse azimuth vs oracle azimuth at point 2; depth 2: swap and common longitude offsets {+14,-90,+360,-360} '
-             'with azimuth changes weighed by the oracle reduced length (~0.7 M pairs, 4 M calls quick).',
+             'with azimuth changes weighed by the oracle reduced length (~0.7 M pairs, 4 M calls quick); angle-class and '
+             'numpy-scalar arguments (also mixed with floats) must give the float result; arbitrary ellipsoids are fresh objects per row.',
         note='Reduced length by differencing the oracle; one open finding (sub-nanometre azimuth noise on lines < 10 m).',
         design='§5/C05'),
     'C06': dict(
@@ -70,11 +71,12 @@ CHECKS = {
              'complete whole-arc-second lattice (18 structural degrees quick / all 360 thorough, both signs) at depth 1, '
              'structural sub-lattice, fractional seconds (1e-9, 1e-8, 0.5, 59.999999999) and degrees 360-719 at depth 3; '
              'every reached state must denote the start angle within 1e-8" (exact rationals / 40-digit pi), every HP float '
-             'must be valid, no edge may raise; invalid HP lattice must be rejected. ~25 M transitions quick.',
+             'must be valid, no edge may raise; invalid HP lattice must be rejected; every whole minute around the 512-degree '
+             'precision threshold, both signs; numpy-scalar / int forms of the numbers as separate start states. ~26 M transitions quick.',
         note='HP floats are read through their 13-decimal string (12 from 512 deg, where float64 has no 13th decimal).',
         design='§5/C08'),
     'C09': dict(
-        text='History exploration: every ordered sequence of calls (alphabet of 54 representative public calls incl. caller-owned '
+        text='History exploration: every ordered sequence of calls (alphabet of 77 representative public calls incl. aliasing twins (same numbers, other ellipsoid / parameter set), derived (re-epoched, negated) sets, caller-owned '
              'lists/arrays, covariance and both directions of every transformation) up to depth 2 (quick) / 3 (thorough), each '
              'history in a forked pristine interpreter; per transition: write barrier silent, deep snapshot of all 140+ '
              'constants unchanged, arguments unchanged, result bit-identical to the pristine-interpreter reference; the set of '
@@ -127,7 +129,8 @@ CHECKS = {
         text='Explicit-state BFS of the representation graph {CoordCart, CoordGeo x 6 notations, CoordTM} under .geo/.tm/.cart/'
              '.notation for (GRS80,UTM), (ANS,ISG), (ANS,UTM), from a position x height-combination lattice injected in every '
              'representation, depth 3 (4 thorough): each edge equals the functional API bit for bit, heights transported, '
-             'N = h - H, and every reached state denotes the start position within 0.3 mm by independent oracles.',
+             'N = h - H, and every reached state denotes the start position within 0.3 mm by independent oracles; positions with '
+             'coordinates in (-1, 0) deg; identical grid numbers explored under two ellipsoids inside one process.',
         note='"Any reached state denotes the start position" contains every closed chain of the statement.',
         design='§5/C15'),
     'C16': dict(
@@ -158,7 +161,8 @@ CHECKS = {
              'children layouts, shapes from {3,4,5,8,60}^2, increments 30-3600", both hemispheres, east/west longitudes, fractional '
              'extents, constant/linear/bi-quadratic/cubic float32-exact fields that differ per sub-grid; per sub-grid EVERY cell '
              '(outer two rings + diagonals for 60-wide grids) x 6 positions, closing edge nodes, points 1e-9 deg inside/outside each '
-             'extent edge; bilinear and bicubic; metadata read-back; finest-sub-grid rule; None/ValueError outside; ntv2_2d signs.',
+             'extent edge; bilinear and bicubic; metadata read-back; finest-sub-grid rule (three nesting levels); None/ValueError '
+             'outside; ntv2_2d signs; zero / blank / arbitrary padding bytes; every worker reuses one file path.',
         note='Generator files only; points exactly on a north/west edge may return no value (half-open extents) but never a wrong one.',
         design='§5/C17'),
     'C18': dict(
@@ -166,7 +170,8 @@ CHECKS = {
              'dense and block-diagonal SPD covariance): remove_stns_sinex with EVERY subset of stations except all, '
              'remove_velocity_sinex, remove_matrixzeros_sinex and the three readers; output parsed by a strict fixed-column '
              'SINEX parser and compared with a list/numpy.delete model (value-exact); the wall clock is a seam: 9 times x 6 '
-             'days-of-year as single deviations and all pairs on small files, outputs identical except the time stamp.',
+             'days-of-year as single deviations and all pairs on small files, outputs identical except the time stamp; the same '
+             'list object reused for a second removal; stations just south/north of the equator and at 0/360 deg longitude.',
         note='pandas stub registered so geodepy.gnss imports offline; clock seam replaces geodepy.gnss.datetime.',
         technique='bounded exhaustive enumeration of file shapes x removal subsets x environment answers (clock) on the real code against a reference model',
         design='§5/C18'),
